@@ -71,3 +71,32 @@ pub fn abf(r: &mut Rng) -> AssetBlindingFactor {
 pub fn vbf(r: &mut Rng) -> ValueBlindingFactor {
     ValueBlindingFactor::from_slice(tweak(r).as_ref()).unwrap()
 }
+
+use elements::secp256k1_zkp::{RangeProof, SurjectionProof};
+
+/// A real range proof over a fresh commitment (exp 0, 52 bits as the library uses).
+pub fn rangeproof(r: &mut Rng) -> RangeProof {
+    let g = generator(r);
+    let v = 1 + (r.next_u64() >> 30);
+    let bf = tweak(r);
+    let c = PedersenCommitment::new(secp(), v, bf, g);
+    RangeProof::new(secp(), 1, c, v, bf, &[1, 2, 3], &[], secret_key(r), 0, 52, g).expect("rangeproof")
+}
+
+/// A small (exact-value style) range proof.
+pub fn rangeproof_small(r: &mut Rng) -> RangeProof {
+    let g = generator(r);
+    let v = 1 + (r.next_u64() >> 30);
+    let bf = tweak(r);
+    let c = PedersenCommitment::new(secp(), v, bf, g);
+    RangeProof::new(secp(), v, c, v, bf, &[], &[], secret_key(r), -1, 0, g).expect("rangeproof")
+}
+
+pub fn surjectionproof(r: &mut Rng, n_inputs: usize) -> SurjectionProof {
+    let tags: Vec<Tag> = (0..n_inputs).map(|_| Tag::from(bytes32(r))).collect();
+    let bfs: Vec<Tweak> = (0..n_inputs).map(|_| tweak(r)).collect();
+    let dom: Vec<(Generator, Tag, Tweak)> = (0..n_inputs).map(|i| (Generator::new_blinded(secp(), tags[i], bfs[i]), tags[i], bfs[i])).collect();
+    let k = (r.next_u32() as usize) % n_inputs;
+    let t = tweak(r);
+    SurjectionProof::new(secp(), r, tags[k], t, &dom).expect("surjection proof")
+}
